@@ -128,10 +128,14 @@ class C16(Prop):
         nbits = rng.choice((1, 2, 4, 8, 32))
         C = rng.choice((8, 16))
         N = rng.choice((40, 64, 100))
+        # float files hold any value: baselines below zero (e.g. bandpass-subtracted data) and negative or fractional
+        # fill values are ordinary there
+        off = rng.choice((0, 0, -40, -1000)) if nbits == 32 else 0
+        mvals = (None, 0, 1) if nbits < 32 else (None, None, 0, 1, -1.5, -0.25, 2.75, -300)
         return {"kind": "clean", "nbits": nbits, "C": C, "N": N, "g": rng.choice((7, 16, N, N + 3)),
-                "method": rng.choice(("mad", "iqrm")), "thr": rng.choice((2.0, 3.0)),
+                "method": rng.choice(("mad", "iqrm")), "thr": rng.choice((2.0, 3.0)), "off": off,
                 "ranges": [[FCH1 + FOFF * 2.2, FCH1 + FOFF * 0.9]] if rng.random() < 0.5 else [],
-                "mval": rng.choice((None, 0, 1)), "bad": sorted(rng.sample(range(C), k=rng.randint(0, 2))),
+                "mval": rng.choice(mvals), "bad": sorted(rng.sample(range(C), k=rng.randint(0, 2))),
                 "dseed": rng.randrange(1 << 30)}
 
     def _round(self, rng):
@@ -198,7 +202,7 @@ class C16(Prop):
                 x[:, b] = rng.integers(0, hi, size=N) * (np.arange(N) % 5 == 0) * 3 % (255 if nbits == 8 else 4096)
             else:
                 x[:, b] = 0
-        return x.astype(np.int64)
+        return x.astype(np.int64) + case.get("off", 0)
 
     def _obs_clean(self, case):
         from sigpyproc.readers import FilReader
